@@ -551,6 +551,7 @@ def write_history(case, path):
         store = SqliteDataStore(p, database_name=path, mode="rewrite" if mode.startswith("rewrite") else "write", thread_safe=ts)
         p.data_store = store
         objs = [Individual() for _ in case["objs"]]
+        peeked = []
         for o, spec in zip(objs, case["objs"]):
             apply_ind(o, spec, objs)
         for k, op in enumerate(case["ops"]):
@@ -564,6 +565,12 @@ def write_history(case, path):
                 elif op[0] == "sync":
                     wops.append("{sop;sind;sind;%s}" % W_ind(objs[op[1]]))
                     store.sync_individual(objs[op[1]])
+                    if len(case["ops"]) % 3 == 0 and not peeked:
+                        peeked.append(1)
+                        try:                       # an early look through a read-mode view (its result is not used): a later
+                            peek_view(path)        # view must show what has been synchronised by then, not this state again
+                        except Exception:          # noqa
+                            pass
                 elif op[0] == "sync_all":
                     wops.append("{sop;sall;sinds;[%s]}" % "".join(W_ind(o) for o in p.individuals))
                     store.sync_all()
@@ -575,6 +582,23 @@ def write_history(case, path):
                     p.data_store = store
             except Exception as e:
                 return wp, wops, "op %d %r raised %s: %s" % (k, op[0], type(e).__name__, e)
+        if len(case["ops"]) % 3 == 0:
+            # a read-mode view opened while the writer's store object is still open (nothing closed, no final sync_all)
+            # returns what has been synchronised so far - the same as a view opened after the store was closed
+            try:
+                before = peek_view(path)
+            except Exception as e:   # noqa
+                return wp, wops, "view-before-close: a read-mode view of the file raised %s: %s while the store that wrote it was still open" % (type(e).__name__, e)
+            store.destroy()
+            after = peek_view(path)
+            if before != after:
+                return wp, wops, ("view-before-close: a read-mode view opened while the store object was still open returned %d individual(s) %r, "
+                                  "after the store was closed it returns %d: %r" % (len(before), before[:3], len(after), after[:3]))
+            raw = raw_rows(path)
+            if raw is not None and raw != after:
+                return wp, wops, ("view-before-close: a read-mode view opened after an earlier view of the same file in this process returns "
+                                  "%r, the rows in the file are %r" % (after[:3], raw[:3]))
+            return wp, wops, None
         store.destroy()
         return wp, wops, None
     except Hang:
@@ -582,6 +606,36 @@ def write_history(case, path):
     finally:
         for q in problems:
             drop_problem(q)
+
+
+def raw_rows(path):
+    """the rows of the file decoded directly (no view, no Individual): (id, vector, costs, population id)"""
+    import sqlite3
+    try:
+        c = sqlite3.connect(path)
+        rows = c.execute("SELECT id, individual FROM individuals").fetchall()
+        c.close()
+        out = []
+        for i, t in rows:
+            d = json.loads(t)
+            out.append((d["id"], repr([float(x) for x in d["vector"]]), repr([float(x) for x in d["costs"]]), d["population_id"]))
+        return sorted(out)
+    except Exception:   # noqa  (another document layout: nothing to compare with)
+        return None
+
+
+def peek_view(path):
+    import atexit
+    from artap.problem import ProblemViewDataStore
+    v = ProblemViewDataStore(database_name=path)
+    try:
+        return sorted((i.id, repr([float(x) for x in i.vector]), repr([float(c) for c in i.costs]), i.population_id) for i in v.individuals)
+    finally:
+        try:
+            atexit.unregister(v.cleanup)
+            v.cleanup()
+        except Exception:   # noqa
+            pass
 
 
 def read_files(paths, rundir):
@@ -754,7 +808,9 @@ def run_history_batch(ctx, cases, rundir, tag):
         pm = parse_model(mo)
         if pm[0] == "raise":
             raise common.InfraError("generator produced a history outside the quantifier (model raises at %s)" % pm[1])
-        if err is not None:
+        if err is not None and err.startswith("view-before-close: "):
+            d = ("view-before-close", err[len("view-before-close: "):])
+        elif err is not None:
             d = ("sync-raised", "a synchronisation call raised on data inside the property's quantifier: " + err)
         else:
             d = compare(g, pm)
